@@ -194,8 +194,11 @@ def r3_pause_resume(prog, rep: Report, pf: PoolFacts):
                 rep.viol("C02.R3", f, f"pause:{ev}", f"`{src(n)}` pauses the feeder unconditionally",
                          scenario="the feeder is paused and never resumed: no more work is sent, the consumer waits forever", line=n.lineno)
                 continue
+            # the pause condition: the test itself when the pause sits in the body, its negation when it sits in the else arm
+            in_body = _contains_any(iff.body, n)
+            ptest = iff.test if in_body else ast.copy_location(ast.UnaryOp(op=ast.Not(), operand=iff.test), iff.test)
             # resume on the other branch
-            other = iff.orelse if _contains_any(iff.body, n) else iff.body
+            other = iff.orelse if in_body else iff.body
             resume = [c for s in other for c in ast.walk(s) if isinstance(c, ast.Call) and isinstance(c.func, ast.Attribute)
                       and c.func.attr == "set" and dotted(c.func.value) == d]
             # The paused feeder is resumed for sure only if the resume fires in the *drained* state: everything sent before the
@@ -237,18 +240,18 @@ def r3_pause_resume(prog, rep: Report, pf: PoolFacts):
                             stored = _eval_ctor_bound(v_, {p_: b_ for p_ in params})
                             if stored is None:
                                 continue
-                            probe = _drained_counterexample([(iff.test, False)], d, bounds, fixed_bound=stored, flow=vflow)
+                            probe = _drained_counterexample([(ptest, False)], d, bounds, fixed_bound=stored, flow=vflow)
                             if probe:
                                 bad_b = (b_, stored)
                                 break
                         rep.check("C02.R3", init, f"bound-stored:{fld}", bad_b is None,
                                   f"self.{fld} = `{src(v_)}` keeps an empty buffer un-paused for every parameter value",
                                   f"with the parameter equal to {bad_b[0] if bad_b else ''} the constructor stores the bound "
-                                  f"{bad_b[1] if bad_b else ''} (`{src(v_)}`): the pause test `{src(iff.test)}` holds for an empty buffer",
+                                  f"{bad_b[1] if bad_b else ''} (`{src(v_)}`): the pause test `{src(ptest)}` holds for an empty buffer",
                                   scenario="results_queue_maxsize=1: the feeder is paused before anything was buffered and never resumed",
                                   line=st_.lineno)
             # the pause test over (len(buffer), bound)
-            t = iff.test
+            t = ptest
 
             def term(x):
                 if isinstance(x, ast.Name):
